@@ -18,8 +18,8 @@ import time
 
 ID = 'C18'
 LEVEL = 'model_checking'
-RULE = ('explicit enumeration of ALL histories of length <= depth over 14 (deck, options) items chosen to collide (quick tier: '
-        'length 3 over the nine items built to collide in process state, length 2 for pairs involving the five others; '
+RULE = ('explicit enumeration of ALL histories of length <= depth over 15 (deck, options) items chosen to collide (quick tier: '
+        'length 3 over the nine items built to collide in process state, length 2 for pairs involving the six others; '
         'only maximal histories are run since every step is compared) '
         '(identical cell / surface numbers with different geometry, universe and lattice decks, a deck that '
         'fails midway, the same deck under other options); each history runs in one fresh interpreter and every '
@@ -236,6 +236,22 @@ ITEMS['n'] = ("""deck n: the same material numbers as deck m with other contents
 m1 1001 2 8016 1
 m2 82208 1
 m5 92238 1
+""", [])
+ITEMS['o'] = ("""deck o: fails while its filled cells (numbered like those of decks c and k) are being developed
+1 0 -1 fill=1 (1 0 0) imp:n=1
+10 0 1 -2 fill=1 (0 1 0) imp:n=1
+11 0 2 -3 fill=1 (0 0 1) imp:n=1
+4 0 3 imp:n=0
+21 1 -2.7 -5 u=1 imp:n=1
+22 0 5 -77 u=1 imp:n=1
+23 0 77 u=1 imp:n=1
+
+1 so 2
+2 so 4
+3 so 6
+5 px 0
+
+m1 13027 1
 """, [])
 NAMES = sorted(ITEMS)
 
